@@ -3,7 +3,7 @@
 # tier of the check that is expected to catch it.  Prints one line per seed: CAUGHT / MISSED.
 # /repo must be clean and no `vp run` without --with-repo may be in flight.
 cd "$(dirname "$0")/.."
-declare -A OVERRIDE=( [R2-C04-lru-caches-paths]=C12 [R4-C02]=C06 [R4-C03]=C12 [R4-C04]=C06 [R4-C08]=C17 [C01-falsy-args]=C01 )
+declare -A OVERRIDE=( [R2-C04-lru-caches-paths]=C12 [R4-C02]=C06 [R4-C03]=C12 [R4-C04]=C06 [R4-C08]=C17 [C01-falsy-args]=C01 [R6-C03]=C01 [R6-C04]=C15 [R6-C16]=C12 )
 for d in seeded/*/; do
   n=$(basename $d)
   [ -f $d/patch.diff ] || continue
